@@ -95,6 +95,9 @@ def build_delta():
     return rc == 0 and os.path.exists(DELTA), out
 
 
+STUB_NAMES = ("less", "more", "most", "bat", "mypager", "lesser", "git", "rg", "diff")
+
+
 def build_native():
     os.makedirs(BIN, exist_ok=True)
     with Lock("native"):
@@ -105,6 +108,20 @@ def build_native():
                 rc, out = sh(["gcc", "-O1", "-o", dst, src])
                 if rc != 0:
                     raise RuntimeError("native build failed: " + out)
+        # stub executables (pagers and producers) for C18, one binary under several names
+        stub_src = os.path.join(VERIF, "native", "stub.c")
+        if os.path.exists(stub_src):
+            sdir = os.path.join(CACHE, "stubs")
+            os.makedirs(sdir, exist_ok=True)
+            stub = os.path.join(BIN, "stub")
+            if not os.path.exists(stub) or os.path.getmtime(stub) < os.path.getmtime(stub_src):
+                rc, out = sh(["gcc", "-O1", "-o", stub, stub_src])
+                if rc != 0:
+                    raise RuntimeError("native build failed: " + out)
+            for nm in STUB_NAMES:
+                d = os.path.join(sdir, nm)
+                if not os.path.exists(d) or os.path.getmtime(d) < os.path.getmtime(stub):
+                    shutil.copy(stub, d)
         shim = os.path.join(VERIF, "native", "epipe_shim.c")
         dst = os.path.join(BIN, "epipe_shim.so")
         if os.path.exists(shim) and (not os.path.exists(dst) or os.path.getmtime(dst) < os.path.getmtime(shim)):
